@@ -212,10 +212,85 @@ fn fit_perm_case<T: Sc>(rng: &mut Rng, case: u64, out: &mut CaseOut) {
     }
 }
 
+/// rank-deficient states: the truncation must act on every right-hand side alike
+fn rankdef_case<T: Sc>(rng: &mut Rng, case: u64, out: &mut CaseOut) {
+    let stream = "rank-deficient";
+    let (g, hist) = gen_rank_deficient(rng, T::IS_F64, 5, 3);
+    let mut spec = g.spec;
+    spec.mrhs = true;
+    let s = spec.s();
+    let n = spec.y.r;
+    let thr = crate::sc::rt::<T>(spec.eps.unwrap()).abs();
+    let Ok(mut big) = build_problem::<T>(&spec, &SpyCtl::new()) else {
+        violation(out, stream, case, "valid problem rejected", spec.to_json());
+        return;
+    };
+    let mut singles: Vec<AnyProblem<T>> = Vec::new();
+    for j in 0..s {
+        let mut sj = spec.clone();
+        sj.y = Mat::from_cols(n, 1, spec.y.col(j).to_vec());
+        sj.mrhs = false;
+        match build_problem::<T>(&sj, &SpyCtl::new()) {
+            Ok(p) => singles.push(p),
+            Err(e) => {
+                violation(out, stream, case, format!("single-column problem rejected: {e}"), sj.to_json());
+                return;
+            }
+        }
+    }
+    let perm = rng.perm(s);
+    let mut pspec = spec.clone();
+    pspec.y = Mat::from_fn(n, s, |i, j| spec.y.at(i, perm[j]));
+    let Ok(mut permuted) = build_problem::<T>(&pspec, &SpyCtl::new()) else { return };
+    for step in 0..=hist.len() {
+        let sb = snap(&big, true);
+        let alpha = sb.params.clone();
+        let v = View::new::<T>(&spec, &alpha);
+        match v.decisive_rank(thr, T::EPS) {
+            Some((kept, kk)) if kept < v.m && kk * T::EPS <= 1e-3 => {
+                let yw = widen(&big.weighted_data());
+                let dn = dnorms::<T>(&spec, &alpha, &v.w);
+                let sp = snap(&permuted, true);
+                for j in 0..s {
+                    out.evals += 1;
+                    let sj = snap(&singles[j], true);
+                    let jj = perm.iter().position(|p| *p == j).unwrap();
+                    for (what, other, col) in [("the single problem for that column", &sj, 0usize), ("the permuted problem", &sp, jj)] {
+                        match close_ratio_k(&v, kk, yw.col(j), &sb, j, other, col, &dn, T::EPS) {
+                            Ok((rc, rr, rj)) if rc <= 1.0 && rr <= 1.0 && rj <= 1.0 => {
+                                out.ratio("rank_deficient_column_twins", rc.max(rr).max(rj));
+                            }
+                            other_r => {
+                                violation(out, stream, case, format!("rank-deficient state (kept {kept} of {} singular values): column {j} of the {s}-column problem disagrees with {what}: {other_r:?}", v.m),
+                                    json!({"problem": spec.to_json(), "alpha": alpha, "column": j}));
+                                return;
+                            }
+                        }
+                    }
+                }
+                if s > 1 {
+                    out.nontrivial.push(crate::rng::hash_u64s([spec.hash(), step as u64]));
+                }
+                out.count("rank_deficient_states_compared");
+            }
+            _ => out.inconcl("rank-deficient state not decisive for the tolerance model"),
+        }
+        if step < hist.len() {
+            let vv = DVector::from_iterator(hist[step].len(), hist[step].iter().map(|x| T::of(*x)));
+            big.set_params(&vv);
+            permuted.set_params(&vv);
+            for p in singles.iter_mut() {
+                p.set_params(&vv);
+            }
+        }
+    }
+}
+
 pub fn run(ctx: &Ctx) {
-    ctx.rule("mrhs-vs-singles: an S-column problem (S in {1,2,3,5,8,12}, incl. duplicated and linearly dependent columns, weights, both flavours, f32/f64), the S single-column problems and a column-permuted S-column problem driven through the same alpha-history (1..4 wide updates); per column: coefficient column, residual block and every Jacobian block compared with kappa-scaled twin tolerances, total row counts N·S; S=1: bitwise agreement with the single problem recorded. permuted-fit: fits of well-separated decay models with 2..5 columns, fitted alpha equal to 1e-6 (f64) under permutation and coefficients permuted. non-trivial = S>1 and residual > 1e-3 |Y_w|");
+    ctx.rule("mrhs-vs-singles: an S-column problem (S in {1,2,3,5,8,12}, incl. duplicated and linearly dependent columns, weights, both flavours, f32/f64), the S single-column problems and a column-permuted S-column problem driven through the same alpha-history (1..4 wide updates); per column: coefficient column, residual block and every Jacobian block compared with kappa-scaled twin tolerances, total row counts N·S; S=1: bitwise agreement with the single problem recorded. rank-deficient: the same comparison at states with two exactly equal decay constants and a user threshold (tolerances scaled with the condition number of the kept part). permuted-fit: fits of well-separated decay models with 2..5 columns, fitted alpha equal to 1e-6 (f64) under permutation and coefficients permuted. non-trivial = S>1 and residual > 1e-3 |Y_w|");
     let t = ctx.tier;
     let b = t.pick(15.0, 150.0);
     ctx.run_cases("mrhs-vs-singles", t.pick(1200, 30000), b, |r, c, o| if c % 3 == 0 { twin_case::<f32>(r, c, o) } else { twin_case::<f64>(r, c, o) });
+    ctx.run_cases("rank-deficient", t.pick(500, 10000), b, |r, c, o| if c % 3 == 0 { rankdef_case::<f32>(r, c, o) } else { rankdef_case::<f64>(r, c, o) });
     ctx.run_cases("permuted-fit", t.pick(300, 8000), b, |r, c, o| if c % 4 == 0 { fit_perm_case::<f32>(r, c, o) } else { fit_perm_case::<f64>(r, c, o) });
 }
